@@ -413,6 +413,22 @@ def run(tier, seed):
     enum = enumerated(seed, thorough)
     enum_stuck = enumerated_stuck(seed, thorough)
     rnd = random_schedules(seed, 20000 if thorough else 2500)
+    # HISTORY: a third of the random and enumerated-stuck schedules are preceded by 1..3 earlier calls on the same multi
+    # client that one node answered while the others were slower (cfg warm / warmby) - the judged call is judged on its
+    # own, the history only lets a client that remembers a "best" node lean on it
+    rh = vlib.rng(seed, "c19hist")
+
+    def with_history(scheds, p):
+        out = []
+        for s in scheds:
+            if rh.random() < p:
+                c = dict(s[0])
+                c["warm"], c["warmby"] = rh.randint(1, 3), rh.randint(1, c["P"] + c["B"])
+                s = [c] + list(s[1:])
+            out.append(s)
+        return out
+    rnd = with_history(rnd, 0.33)
+    enum_stuck = with_history(enum_stuck, 0.33)
     # stage 2+3
     vlib.conformance(o, FAMILY, "MultiClientTrace", TCFG, "c19", scheds, tag="tlcgen")
     vlib.conformance(o, FAMILY, "MultiClientTrace", TCFG, "c19", enum, tag="enum")
